@@ -430,7 +430,20 @@ def specialBits (f : FloatFmt) : Special → Nat
 /-- Go `strconv.ParseFloat(s, bitSize)`, result as a bit pattern of width 32
 (`bitSize = 32`) or 64 (otherwise): the correctly rounded (nearest-even) value of
 the literal, `range` when that rounding overflows to ±Inf, `syntax` when Go reports
-a syntax error (including trailing garbage). -/
+a syntax error (including trailing garbage).
+
+The literal's exact value uses Go's saturated exponent (`scanExpDigits`), so even
+`1e99999999` agrees.  NaN never carries a sign (`"-nan"` is a syntax error).
+
+KNOWN DIVERGENCE (a go1.23.5 defect, found by /verif/harness_strconv): for a
+DECIMAL literal with more than 800 digits between its first non-zero digit and the
+decimal point (or the end of the mantissa), Go's slow path `decimal.set` sets
+`dp = nd` from a digit count capped at 800, so whenever the Eisel-Lemire fast path
+declines, Go's result is too small by `10^(digits-800)`; e.g.
+`ParseFloat("1" + 800 zeros + "e-791", 64)` returns `1e8`, not `1e9`.  Which path
+Go takes depends on Eisel-Lemire internals, so this is not modelled: here such
+literals get their correctly rounded value.  Syntax acceptance is unaffected.  The
+harness generates such inputs only with `-bug800`. -/
 def parseFloat (s : GoString) (bitSize : Nat) : Except PErr Nat :=
   let f := fmtOf bitSize
   match special s with
